@@ -128,18 +128,40 @@ func ruleR5BinderScope(c *Ctx) []Obligation {
 			}
 			memo[g] = nil
 			fn := byObj[g]
-			if fn == nil || depth > 3 || len(fn.fd.Body.List) > 4 {
+			if fn == nil || depth > 3 || len(fn.fd.Body.List) > 12 {
 				return 0
 			}
+			// a helper whose scope primitives all sit in straight-line top-level statements (expression
+			// statements, assignments, the return) has that net effect for its caller — `enterFrame()`
+			// replaces the scope list and pushes one scope: +1; compound statements may only contain
+			// calls without an effect on the depth, otherwise the helper is not summarised
 			d := 0
 			for _, s := range fn.fd.Body.List {
-				es, ok := s.(*ast.ExprStmt)
-				if !ok {
-					continue
+				straight := false
+				switch s.(type) {
+				case *ast.ExprStmt, *ast.AssignStmt, *ast.ReturnStmt, *ast.DeclStmt, *ast.IncDecStmt:
+					straight = true
 				}
-				if call, ok := es.X.(*ast.CallExpr); ok {
-					d += delta(CalleeOf(fn.info, call), depth+1)
+				sum, mixed := 0, false
+				ast.Inspect(s, func(n ast.Node) bool {
+					switch x := n.(type) {
+					case *ast.FuncLit:
+						return false
+					case *ast.CallExpr:
+						if k := delta(CalleeOf(fn.info, x), depth+1); k != 0 {
+							sum += k
+							if !straight {
+								mixed = true
+							}
+						}
+					}
+					return true
+				})
+				if mixed {
+					memo[g] = nil
+					return 0
 				}
+				d += sum
 			}
 			memo[g] = &d
 			return d
